@@ -35,6 +35,10 @@ impl<T> RwLock<T> {
 		}
 	}
 
+	pub fn verif_id(&self) -> usize {
+		self.id
+	}
+
 	pub async fn read(&self) -> ReadGuard<'_, T> {
 		super::sched_impl::before_acquire(self.id, false).await;
 		let g = loop {
